@@ -152,12 +152,7 @@ func (c *Ctx) checkNoRegisterForRefusedNames(r *Report, rule string) {
 			}
 			n++
 			nameArg := call.Common().Args[1]
-			ok := false
-			for _, cc := range controlling(call.Block()) {
-				if k, isCall := cc.Cond.(*ssa.Call); isCall && isCallTo(k, isExtra) && cc.Edge == 1 && sameExpr(k.Common().Args[0], nameArg) {
-					ok = true
-				}
-			}
+			ok := c.testedFalse(controlling(call.Block()), isExtra, nameArg)
 			r.Check(ok, rule, ssaFuncName(fn), "register bound to a name only if !IsExtraFunction(name)", c.Pos(call.Pos()),
 				"an integer parameter or loop variable named like an extension function becomes a register without the test CreateOrSet makes: func f(sin){1}; f(3) is 1 with registers and `attempt to change internal function sin` without")
 		}
